@@ -178,7 +178,7 @@ Inductive sval :=
 
 (* sigma_type(v), or SigmaString.from_str(v) when the re modifier is in the chain *)
 Definition sigma_of (re : bool) (v : pv) : sval :=
-  if re then match v with PStrV s => SStr [PStr s] | _ => SNull (* rejected by load_item *) end
+  if re then match v with PStrV s => SStr [PStr s] | _ => SNull (* such a load fails: SigmaTypeError *) end
   else match v with
        | PStrV s => SStr (parse true s)
        | PInt z | PFloatInt z => SNum z
@@ -221,6 +221,7 @@ Definition load_item (key : option str) (v : mval) : outcome item :=
   obind (match key with None => Ok (None, []) | Some k => parse_key k end) (fun fm =>
   let '(f, ms) := fm in
   let re := has_mod M_RegularExpression ms in
+  (* non-string values under re: typed normally, then refused by the type check of the re modifier *)
   if re && negb (forallb is_str (vals_of v)) then SigmaErr E_Type else
   let orig := map (sigma_of re) (vals_of v) in
   obind (apply_mods f ms orig) (fun t => Ok (mkItem f ms (Some orig) t))).
